@@ -94,7 +94,7 @@ func runC06(c *run.Ctx) {
 		kind := kinds[i%len(kinds)]
 		refl := kind == "reflect" || kind == "mixed-reflect"
 		ec := newExecCase(r, gen.SchemaOpts{Args: !refl, Mutation: false},
-			gen.DocOpts{Frags: true, Dirs: i%3 == 0, Vars: true, Aliases: true, Depth: 2 + r.Intn(3)})
+			gen.DocOpts{Frags: true, Dirs: i%3 == 0, Vars: true, Aliases: true, Depth: 2 + r.Intn(3), DupKeys: i%4 == 2})
 		if refl && !back.ReflectFriendly(ec.S) {
 			continue
 		}
@@ -111,9 +111,26 @@ func runC06(c *run.Ctx) {
 			c.Count("clean_run_disagreements_skipped", 1)
 			continue
 		}
+		// a response key selected twice makes ggql call the resolver twice; an application fails at a (node, field), not at
+		// the n-th call for it, so in such documents a planted fault fires at every call with its key
+		dup := ec.DC.Feats["dup-key"]
 		check := func(tag string, plan model.FaultPlan, g *model.Graph, hh *back.Harness, nontriv bool) {
+			fl := ref.Flags{}
+			hh.AllOcc = dup
+			if dup {
+				if strings.HasPrefix(tag, "nth") {
+					return
+				}
+				p0 := model.FaultPlan{}
+				for k, f := range plan {
+					k.Occ = 0
+					p0[k] = f
+				}
+				plan, fl.AllOcc = p0, true
+				c.Bucket("doc_features", "repeated-response-key-with-faults")
+			}
 			sites++
-			exp := ref.Execute(ec.S, ec.DC.Doc, rq.OpName, rq.Vars, g, plan, ref.Flags{})
+			exp := ref.Execute(ec.S, ec.DC.Doc, rq.OpName, rq.Vars, g, plan, fl)
 			out := Do(hh, rq, plan)
 			c.Eval(fmt.Sprintf("%s|%s|%v|%s", ec.Text, kind, plan, tag), nontriv)
 			c.Bucket("fault_kind", tag)
